@@ -47,6 +47,12 @@ def build(cs, valid_only=False):
     boot = dict({'op': 'add_fp', 'cid': h.gen.new_cid(), 'length': len(bdata), 'data': bytes(bdata)}, **names('b'))
     h.apply(boot)
     h.apply({'op': 'add_eltorito', 'bootfile_path': boot['iso_path'], 'boot_load_size': 4, 'boot_info_table': rng.random() < 0.3})
+    if rng.random() < 0.3:
+        # a further x86 section entry whose file is laid out after the default boot file: the MBR
+        # keeps pointing at the default entry's file
+        x = dict({'op': 'add_fp', 'cid': h.gen.new_cid(), 'length': rng.choice([2048, 3000])}, **names('x'))
+        if h.apply(x).ok:
+            h.apply({'op': 'add_eltorito', 'bootfile_path': x['iso_path'], 'platform_id': 0})
     n_efi = rng.choice([0, 0, 1, 1, 2])
     efi_files = []
     for k in range(n_efi):
@@ -210,8 +216,9 @@ def check(cfg, ops, seed, counters):
             efi_entries = [e for sec in et.sections if sec.platform_id == 0xef for e in sec.entries]
             parts = hy.gpt_primary['parts']
             exp_ranges = []
+            model_efi = [me for me in m.boot['entries'][1:] if me.get('efi')]
             for k, e in enumerate(efi_entries[:2]):
-                cid = m.boot['entries'][1 + k]['cid'] if len(m.boot['entries']) > 1 + k else None
+                cid = model_efi[k]['cid'] if len(model_efi) > k else None
                 ln = m.contents[cid].length if cid in m.contents else None
                 if ln is not None:
                     exp_ranges.append((e.load_rba * 4, e.load_rba * 4 + ((ln + 2047) // 2048) * 4 - 1))
